@@ -9,7 +9,7 @@ muts = json.load(open(os.path.join(ROOT, 'mutants.json')))
 sel = sys.argv[1:]
 res = []
 for m in muts:
-    if sel and not any(s in m['id'] for s in sel):
+    if sel and not any((s[1:] == m['id']) if s.startswith('=') else (s in m['id']) for s in sel):
         continue
     d = tempfile.mkdtemp(prefix='vxmut_')
     try:
